@@ -141,10 +141,39 @@ func TestC20_CLI(t *testing.T) {
 				words = []string{"zzqxj", frag}
 			}
 		}
+		if len(cmds) > 0 && rapid.IntRange(0, 2).Draw(t, "phrase-typo") == 0 {
+			// two neighbouring words of one entry, each with a letter dropped: nothing matches
+			// lexically, and the typo fallback matches the query - blanks included - character by character
+			c := cmds[rapid.IntRange(0, len(cmds)-1).Draw(t, "phrase-of")]
+			var fs []string
+			for _, f := range strings.Fields(c.Command + " " + c.Description) {
+				ok := len(f) >= 3
+				for _, r := range f {
+					if !(r >= 'a' && r <= 'z' || r >= 'A' && r <= 'Z' || r >= '0' && r <= '9') {
+						ok = false
+					}
+				}
+				if ok {
+					fs = append(fs, f)
+				} else {
+					fs = append(fs, "")
+				}
+			}
+			for i := 0; i+1 < len(fs); i++ {
+				if fs[i] != "" && fs[i+1] != "" {
+					d1 := rapid.IntRange(0, len(fs[i])-1).Draw(t, "drop1")
+					d2 := rapid.IntRange(0, len(fs[i+1])-1).Draw(t, "drop2")
+					words = []string{fs[i][:d1] + fs[i][d1+1:], fs[i+1][:d2] + fs[i+1][d2+1:]}
+					break
+				}
+			}
+		}
 		q1 := strings.Join(words, " ")
 		// second command line: re-cased, padded, split differently
 		var args2 []string
-		pad := rapid.SampledFrom([]string{"", " ", "  ", "\t", " \t "})
+		// every White_Space character pads or separates (the validator collapses them all): blanks and
+		// tabs, line breaks, NBSP, en/em spaces, ideographic space, line and paragraph separators
+		pad := rapid.SampledFrom([]string{"", " ", "  ", "\t", " \t ", "", " ", "\u00a0", " \u00a0", "\u2003 ", "\u3000\u3000", "\n", " \u2028", "\u2009\u200a", "\u1680", "\u0085 "})
 		mode := rapid.SampledFrom([]string{"one-arg-padded", "split-args", "mixed"}).Draw(t, "arg-mode")
 		var w2 []string
 		for _, w := range words {
